@@ -70,6 +70,23 @@ class Q:
     def full(self):
         return self.m
 
+    def copy(self):
+        return Q(self.m.copy())
+
+    def dag(self):
+        from .values import SC
+        r = np.empty(self.m.shape[::-1], dtype=object)
+        for i in np.ndindex(*self.m.shape):
+            v = self.m[i]
+            r[i[::-1]] = v.conjugate() if hasattr(v, 'conjugate') else v
+        return Q(r)
+
+    def tr(self):
+        acc = 0
+        for i in range(self.m.shape[0]):
+            acc = arith('+', acc, self.m[i, i])
+        return acc
+
     def eq(self, other):
         """entrywise equality with a matrix of exact numbers (symbolic bool)"""
         o = other.m if isinstance(other, Q) else np.asarray(other, dtype=object)
